@@ -21,6 +21,10 @@ type Case struct {
 	Sealed bool              `json:"sealed"`
 	Reqs   []Req             `json:"reqs"`
 	Opts   harness.StoreOpts `json:"opts"`
+	// SealAfter: bit i = after the i-th bulk the fraction is rotated out and sealed, the next bulk
+	// goes into a new one: a store answers from all its fractions (Opts.FracsPerIter of them per
+	// iteration, stopping early when the page is certain)
+	SealAfter uint32 `json:"seal_after,omitempty"`
 }
 
 type Req struct {
@@ -57,6 +61,10 @@ func genCase(t *rapid.T) Case {
 		rest -= n
 	}
 	c.Sealed = rapid.Bool().Draw(t, "sealed")
+	if !big && !huge && len(c.Bulks) > 1 && rapid.IntRange(0, 2).Draw(t, "several") == 2 {
+		c.SealAfter = rapid.Uint32Range(1, 1<<min(len(c.Bulks)-1, 12)-1).Draw(t, "sealafter")
+		c.Opts.FracsPerIter = rapid.SampledFrom([]int{1, 2, 0}).Draw(t, "fpi")
+	}
 	all := c.docs()
 	nreq := rapid.IntRange(1, 6).Draw(t, "nreq")
 	for i := 0; i < nreq; i++ {
@@ -94,11 +102,16 @@ func runCase(c Case) (evid.Result, error) {
 	}
 	defer st.Close()
 	pos := 0
-	for _, n := range c.Bulks {
+	for i, n := range c.Bulks {
 		if err := st.Bulk(c.Corpus[pos : pos+n]); err != nil {
 			return res, evid.Failf("bulk-error", "%v", err)
 		}
 		pos += n
+		if i < 32 && c.SealAfter&(1<<i) != 0 && i < len(c.Bulks)-1 {
+			st.WaitIdle()
+			st.Seal()
+			res.Labels = append(res.Labels, "several-fractions")
+		}
 	}
 	synth := c.Synth.Docs()
 	for p := 0; p < len(synth); p += 5000 {
